@@ -970,4 +970,100 @@ example :
     let w : Wave := ⟨1000, 10, [0, 0, 1, 2, 1, 2, 1, 2, 0, 0, 0, 1, 2]⟩
     w.lineTimeNs 3 = some 90 ∧ 0 < numBlocks w.numBoundaries 3 := by decide
 
+/-! ## The 1-D mean on arbitrary int64 arrays -/
+
+
+/-- **No overflow for arbitrary int64 arrays whose span fits int64** (generalises `tsMean_no_overflow`
+    from non-negative timestamps): if every value is an int64 and `max − min < 2⁶³`, every integer computed
+    on the way lies in int64 (the shifted values and all partial results even in `[0, 2⁶³)`). -/
+theorem tsMean_no_overflow_span (a : List Int) (hne : a ≠ [])
+    (hb : ∀ x ∈ a, I64MIN ≤ x ∧ x ≤ I64MAX) (hspan : listMax a - listMin a ≤ I64MAX) :
+    ∀ y ∈ tsMeanTrace a, I64MIN ≤ y ∧ y ≤ I64MAX := by
+  have hmin := listMin_mem a hne
+  have hmax := listMax_mem a hne
+  have hlen : 0 < a.length := List.length_pos_iff.mpr hne
+  have hsh := shifted_bounds a
+  have hI : I64MIN ≤ 0 := by decide
+  intro y hy
+  simp only [tsMeanTrace, List.mem_append, List.mem_singleton] at hy
+  rcases hy with (hy | hy) | hy
+  · have := hsh y hy; omega
+  · have := intMeanTrace_bounds a.length (listMax a - listMin a) hspan _ hsh (by simp) (by omega) y hy
+    omega
+  · subst hy
+    have b := intMean_bounds a.length (by omega) _ (fun x hx => (hsh x hx).1)
+    have h4 := sum_le_length_mul _ (listMax a - listMin a) (fun x hx => (hsh x hx).2)
+    simp only [List.length_map] at h4
+    have h6 : (a.map (· - listMin a)).sum / (a.length : Int) ≤ listMax a - listMin a :=
+      Int.ediv_le_of_le_mul (by omega) (by
+        have := Int.mul_comm (a.length : Int) (listMax a - listMin a); omega)
+    have := (hb _ hmin).1; have := (hb _ hmax).2
+    omega
+
+example : (∀ x ∈ ([-5, I64MAX - 5, 0] : List Int), I64MIN ≤ x ∧ x ≤ I64MAX) ∧
+    listMax [-5, I64MAX - 5, 0] - listMin [-5, I64MAX - 5, 0] ≤ I64MAX := by decide
+
+/-- The span hypothesis is necessary: for `[-1, 2⁶³−1]` (both int64) the shifted array `a − min(a)`
+    already contains `2⁶³`, outside int64 (kernel-checked).  Not a timestamp array: timestamps are
+    non-negative, so their span always fits. -/
+theorem span_necessary_witness :
+    (∀ x ∈ ([-1, I64MAX] : List Int), I64MIN ≤ x ∧ x ≤ I64MAX) ∧
+    ¬ ∀ y ∈ ([-1, I64MAX] : List Int).map (· - listMin [-1, I64MAX]), y ≤ I64MAX := by decide
+
+/-- the number of splits of the 1-D mean is at most `n − 1`, so `tsMean_floor_split` gives
+    `⌊mean⌋ − (n − 1) ≤ timestamp_mean(a) ≤ ⌊mean⌋` for every array -/
+theorem tsMean_floor_split_n (a : List Int) (r : Int) (h : tsMean a = some r) :
+    a.sum / a.length - ((a.length - 1 : Nat) : Int) ≤ r ∧ r ≤ a.sum / a.length := by
+  have b := tsMean_floor_split a r h
+  have := intMeanSplits_le (a.map (· - listMin a))
+  simp only [List.length_map] at this
+  have : (intMeanSplits (a.map (· - listMin a)) : Int) ≤ ((a.length - 1 : Nat) : Int) := Int.ofNat_le.mpr this
+  omega
+
+/-! ## The hypotheses of the raw-stream and total theorems, established by the geometry -/
+
+
+/-- **Raw-stream exactness from the shape of the info wave** (`line_range_exact_raw` without its
+    semantic hypothesis): when the wave has dead time only between lines (`LinesOk`), every line range
+    the code reports selects from the raw sample stream exactly the samples of that line's complete
+    pixels. -/
+theorem line_range_exact_raw_shape (w : Wave) (hdt : 0 < w.dt) (hmax : w.dt ≤ 1000000000000000)
+    (hs : 0 ≤ w.start) (k : Nat) (hk : w.pixelSize = some k) (P : Nat) (hP : 0 < P)
+    (hok : LinesOk (P * k) w.iw)
+    (rs : List (Int × Int)) (hrs : w.lineRangesExcl P (deltaTs w.dt) = some rs) (l : Nat)
+    (hl : l < rs.length) :
+    w.allTs.filter (fun t => decide (rs[l].1 ≤ t) && decide (t < rs[l].2))
+      = blockSamples w.usedTs k P l := by
+  have hd := deltaTs_bounds w.dt (by omega) hmax
+  have hex := line_range_exact w hdt hs k hk P hP _ hd.1 hd.2.1 rs hrs
+  exact line_range_exact_raw w hdt hs k hk P hP _ hd.1 hd.2.1 rs hrs l hl
+    (hcont_of_linesOk w hdt k hk P hP hok l (by rw [← hex.1]; exact hl))
+
+/-- **The C02 kymograph geometries establish every hypothesis**: for the info wave of any geometry
+    (lead-in, `k` samples per pixel, `P` pixels per line, any dead time, any number of lines, tail),
+    truncated at any sample after its first complete pixel, any start `≥ 0`, any period up to 10¹⁵ ns and
+    any photon counts: (1) every reported line range selects from the raw stream exactly its line's
+    samples, and (2) summing the photon stream over the reported ranges gives the image's column totals. -/
+theorem kymo_geometry_ranges (w : Wave) (data : List Int) (hlen : data.length = w.iw.length)
+    (hdt : 0 < w.dt) (hmax : w.dt ≤ 1000000000000000) (hs : 0 ≤ w.start)
+    (lead k P dead lines tail n : Nat) (hk : 0 < k) (hP : 0 < P)
+    (hiw : w.iw = (geomKymo lead k P dead lines tail).take n) (hpix : k ≤ w.subset.length)
+    (rs : List (Int × Int)) (hrs : w.lineRangesExcl P (deltaTs w.dt) = some rs) :
+    (∀ (l : Nat) (hl : l < rs.length),
+      w.allTs.filter (fun t => decide (rs[l].1 ≤ t) && decide (t < rs[l].2))
+        = blockSamples w.usedTs k P l) ∧
+    sumOver ⟨w.start, w.dt, data⟩ rs = lineTotals P (pixelSums w.iw data 0) := by
+  have hreg := geomKymo_regular w lead k P dead lines tail n hk hiw hpix
+  have hok : LinesOk (P * k) w.iw := by rw [hiw]; exact geomKymo_linesOk lead k P dead lines tail n hk
+  have hc := hcont_of_linesOk w hdt k hreg.pixelSize P hP hok
+  refine ⟨fun l hl => line_range_exact_raw_shape w hdt hmax hs k hreg.pixelSize P hP hok rs hrs l hl, ?_⟩
+  rw [hreg.numPix] at hc
+  exact sum_over_ranges_eq_image_code w data hlen hdt hmax hs k _ _ hreg P hP hc rs hrs
+
+/-- Non-vacuity: lead-in 2, two samples per pixel, two pixels per line, dead time 1, three lines, cut
+    after 15 samples (third line unfinished). -/
+example :
+    let w : Wave := ⟨1000, 10, [0, 0, 1, 2, 1, 2, 0, 1, 2, 1, 2, 0, 1, 2, 1]⟩
+    w.iw = (geomKymo 2 2 2 1 3 0).take 15 ∧ 2 ≤ w.subset.length := by decide
+
 end Verif.C03
